@@ -309,6 +309,26 @@ fn rew_rule(rng: &mut Rng, id: String, lang: &'static str, f: &str) -> RuleSpec 
   RuleSpec { id, lang, doc, feats, shared: false, hits, misses }
 }
 
+/// a language whose meta-variable sigil is rewritten to another character inside the parser
+/// (Python: `$` -> `µ`): a chain of inter-dependent transformations, written with `$` in the YAML
+fn py_chain_rule(rng: &mut Rng, id: String, f: &str) -> RuleSpec {
+  let n = 3 + rng.below(2);
+  let (tr, names) = gen_transform(rng, "$A", None, n);
+  let (t0, tl) = (&names[0], names.last().unwrap());
+  let doc = obj(vec![
+    ("id", json!(id)),
+    ("language", json!("Python")),
+    ("severity", json!(severity(rng))),
+    ("rule", json!({"pattern": format!("{f}($A, $B)")})),
+    ("transform", tr),
+    ("message", json!(format!("{f}: ${t0} => ${tl}"))),
+    ("fix", json!(format!("{f}(${tl}, $B)"))),
+  ]);
+  let hits = (0..4).map(|_| format!("{f}({}, {})", rng.pick(&IDENTS), rng.pick(&["1", "x", "'s'"]))).collect();
+  let misses = vec![format!("{f}(1)"), format!("other_{f}(alpha, 1)")];
+  RuleSpec { id, lang: "Python", doc, feats: vec!["fix", "transform-chain", "expando-language"], shared: false, hits, misses }
+}
+
 /// hypothesis H20: two constraints bind the same NEW meta-variable; the result depends on map order
 fn shared_rule(rng: &mut Rng, id: String, lang: &'static str, f: &str) -> RuleSpec {
   let doc = obj(vec![
@@ -352,12 +372,20 @@ fn gen_project(idx: usize, rng: &mut Rng) -> (Project, Layout) {
       _ => chain_rule(rng, id, lang, f, ng),
     });
   }
+  if rng.chance(1, 2) {
+    let f = fnames[nrules % fnames.len()];
+    rules.push(py_chain_rule(rng, format!("r{nrules}-{f}-py"), f));
+  }
+  let nrules = rules.len();
   shuffle(rng, &mut rules);
   let mut langs: Vec<&'static str> = rules.iter().map(|r| r.lang).collect();
   langs.sort();
   langs.dedup();
   let mut globals = vec![];
   for l in &langs {
+    if *l == "Python" {
+      continue; // no global utilities for the Python rule
+    }
     globals.extend(gen_globals(rng, l, pfx(l), nglob[(*l == "TypeScript") as usize]));
   }
   // sources: 5..20 files in nested dirs, languages round-robin; every rule gets lines in 2..4 files
@@ -365,8 +393,9 @@ fn gen_project(idx: usize, rng: &mut Rng) -> (Project, Layout) {
   let mut files: Vec<(String, String, &'static str)> = (0..nfiles)
     .map(|i| {
       let l = langs[i % langs.len()];
-      let ext = if l == "JavaScript" { "js" } else { "ts" };
-      (format!("{}/f{i}.{ext}", rng.pick(&DIRS)), format!("// file {i}\nconst v{i} = {i};\n"), l)
+      let ext = if l == "JavaScript" { "js" } else if l == "Python" { "py" } else { "ts" };
+      let head = if l == "Python" { format!("# file {i}\nv{i} = {i}\n") } else { format!("// file {i}\nconst v{i} = {i};\n") };
+      (format!("{}/f{i}.{ext}", rng.pick(&DIRS)), head, l)
     })
     .collect();
   for r in &rules {
